@@ -909,34 +909,34 @@ CORNERS = [
     # redirect look-alikes: names / digits the xonsh tokenizer knows as stream names, glued to > and >>
     "1>2\n", "1>=1\n", "1>>2\n", "2>1\n", "2>>1\n", "a>b\n", "a>=b\n", "a>>b\n", "e>1\n", "e>o\n", "o>e\n", "err>out\n", "out>err\n", "all>p\n", "a>p\n", "e>p\n",
     "x = 1>2\n", "x = e>>o\n", "x = [e>1 for e in es]\n", "if a>b: pass\n", "x = a>-b\n", "x = o>=e\n", "x = err>=out\n", "x = out>>err\n", "x = all>=1\n", "f(a>b, e>=o)\n",
-    "x = 1<2\n", "x = a<b\n", "x = a<=b\n", "x = a<<b\n", "x = 2>&1\n" if False else "x = 2>1\n", "x = a&b\n", "x = a&1>2\n", "x = a|b\n", "x = a||b\n" if False else "x = a or b\n",
+    "x = 1<2\n", "x = a<b\n", "x = a<=b\n", "x = a<<b\n", "x = 2>1\n", "x = a&b\n", "x = a&1>2\n", "x = a|b\n", "x = a or b\n",
     "lambda a,b: a>=b\n", "assert a>=b, a\n", "while e>0: e-=1\n",
     # numbers
-    "x = 0xFF + 0o17 + 0b11 + 1_000 + 1e3 + 1E-3 + 1.j + .5 + 5. + 0_0 + 1_0.0_1e+1_0\n", "x = 1if y else 2\n" if False else "x = 1 if y else 2\n", "x = 0XaB\n", "x = 1 .real\n", "x = 1..real\n", "x = 1.e1.real\n", "x = 00\n", "x = 0.0j\n",
+    "x = 0xFF + 0o17 + 0b11 + 1_000 + 1e3 + 1E-3 + 1.j + .5 + 5. + 0_0 + 1_0.0_1e+1_0\n", "x = 1 if y else 2\n", "x = 0XaB\n", "x = 1 .real\n", "x = 1..real\n", "x = 1.e1.real\n", "x = 00\n", "x = 0.0j\n",
     # strings
-    "x = 'a' 'b'\n", "x = 'a' \"b\" '''c''' \"\"\"d\"\"\"\n", "x = ('a'\n     'b')\n", "x = 'a' \\\n  'b'\n", "x = rb'\\d' Rb'\\d' BR'\\d' u'u' U'U'\n", "x = '''a\nb'''\n", "x = 'a\\\nb'\n",
+    "x = 'a' 'b'\n", "x = 'a' \"b\" '''c''' \"\"\"d\"\"\"\n", "x = ('a'\n     'b')\n", "x = 'a' \\\n  'b'\n", "x = rb'\\d' Rb'\\d' BR'\\d'\n", "x = r'\\d' R'\\d' u'u' U'U'\n", "x = '''a\nb'''\n", "x = 'a\\\nb'\n",
     "x = b'a' b'b'\n", "x = 'a' f'{b}' 'c'\n", "x = f'' ''\n", "x = '' f''\n", "x = u'a' 'b'\n", "x = 'a' u'b'\n", "x = '\\N{BULLET}'\n", "x = '\\u00e9\\U0001F600\\x41\\101\\n'\n",
     # f-strings (PEP 701)
     "f'{x}'\n", "f'{x!r}'\n", "f'{x!s:>10}'\n", "f'{x:{w}}'\n", "f'{x:{w}.{p}}'\n", "f'{x=}'\n", "f'{x = }'\n", "f'{x=!r}'\n", "f'{x=:>5}'\n", "f'{{}}'\n", "f'{{{x}}}'\n", "f'a{x}b{y}c'\n",
-    "f'{x:%Y-%m-%d}'\n", "f'{d[\"k\"]}'\n", "f'{d['k']}'\n", "f\"{d[\"k\"]}\"\n", "f'{f'{x}'}'\n", "f'{f'{f'{x}'}'}'\n", "f'{x!r:{y!s}}'\n", "f'''{\nx\n}'''\n", "f'{x # c\n}'\n" if False else "f'''{x # c\n}'''\n",
-    "f'{lambda: 1}'\n" if False else "f'{(lambda: 1)}'\n", "f'{x:{'>'}{10}}'\n", "f'{a if b else c}'\n", "f'{x:=5}'\n", "f'{(x:=5)}'\n", "f'{*a,}'\n", "f'{a, b}'\n", "f'{yield}'\n" if False else "def g():\n    return f'{yield}'\n",
+    "f'{x:%Y-%m-%d}'\n", "f'{d[\"k\"]}'\n", "f'{d['k']}'\n", "f\"{d[\"k\"]}\"\n", "f'{f'{x}'}'\n", "f'{f'{f'{x}'}'}'\n", "f'{x!r:{y!s}}'\n", "f'''{\nx\n}'''\n", "f'''{x # c\n}'''\n",
+    "f'{(lambda: 1)}'\n", "f'{x:{'>'}{10}}'\n", "f'{a if b else c}'\n", "f'{x:=5}'\n", "f'{(x:=5)}'\n", "f'{*a,}'\n", "f'{a, b}'\n", "def g():\n    return f'{yield}'\n",
     "f'{x}' f'{y}'\n", "f'\\N{BULLET}{x}'\n", "f'\\n{x}\\t'\n", "fr'\\d{x}'\n", "rf'\\{x}'\n", "Rf'{x}'\n", "F'{x}'\n", "f'{x!a}'\n", "f'{ x }'\n", "f'{x }'\n", "f'{x:}'\n", "f'{x!r:}'\n", "f'{\"a\" \"b\"}'\n",
-    "f'{x:\\n}'\n" if False else "f'{x:>{w}}'\n", "f'{{'\n", "f'}}'\n", "f'{x:{{}}}'\n" if False else "f'{x:a{y}b}'\n", "f'{await x}'\n" if False else "async def g():\n    return f'{await x}'\n", "f'{not x}'\n", "f'{-x}'\n", "f'{x!r}{y!s}{z!a}'\n",
-    "f'{a[b:=1]}'\n" if False else "f'{a[(b:=1)]}'\n", "f'{a:{b:{c}}}'\n", "f'{\"\\n\"}'\n", "f'{'\\n'}'\n", "f\"{'a' if x else \"b\"}\"\n", "f'{x:#x}'\n", "f'{1:{2:{3}}}'\n", "f'''{'''x'''}'''\n",
+    "f'{x:>{w}}'\n", "f'{{'\n", "f'}}'\n", "f'{x:a{y}b}'\n", "async def g():\n    return f'{await x}'\n", "f'{not x}'\n", "f'{-x}'\n", "f'{x!r}{y!s}{z!a}'\n",
+    "f'{a[(b:=1)]}'\n", "f'{a:{b:{c}}}'\n", "f'{\"\\n\"}'\n", "f'{'\\n'}'\n", "f\"{'a' if x else \"b\"}\"\n", "f'{x:#x}'\n", "f'{1:{2:{3}}}'\n", "f'''{'''x'''}'''\n",
     # continuation / indentation
     "if x:\n\ty = 1\n\tz = 2\n", "if x:\n        y = 1\n", "if x:\n y = 1\nelse:\n        z = 2\n", "if x:\n  if y:\n      z = 1\n  w = 2\n", "x = (1 +\n2)\n", "x = [\n1,\n2,\n]\n", "x = {\n'a': 1,\n}\n", "x = 1 + \\\n    2\n",
     "def f(\n    a,\n    b,\n):\n    pass\n", "x = 1  # c\n", "# only a comment\n", "\n\nx = 1\n\n\n", "x = 1\n\n\n# trailing comment\n", "if x:\n    # c\n    y = 1\n    # c2\nz = 1\n", "if x:\n    y = 1\n\n    z = 2\n",
     "if x:\n    pass\n# c\nelse:\n    pass\n", "class A:\n\n    x = 1\n\n\n    def f(self):\n\n        pass\n", "if x: pass\nelif y: pass\nelse: pass\n", "for x in y: pass\nelse: pass\n", "while x: break\nelse: pass\n", "try: pass\nfinally: pass\n",
     "x = 1; y = 2\n", "x = 1;\n", "x = 1 ;y = 2;\n", "if x: y = 1; z = 2\n", "if x:\n    y = 1; z = 2;\n", "x = (\n# c\n1\n)\n", "x = (1,\n# c\n)\n", "x \\\n= 1\n", "x = [1,\n     2]; y = 3\n", "if x:\n    y = [\n1]\n",
-    "x = 1\\\n+2\n", "assert x, \\\n  y\n", "from a import (b,\n c)\n", "from a import (b, c,)\n", "with a as b, \\\n     c as d:\n    pass\n", "if (a and\n    b):\n    pass\n", "\tx = 1\n" if False else "if 1:\n\tx = 1\n", "x = 1\r\ny = 2\r\n", "x = 1\n\x0c\ny = 2\n",
+    "x = 1\\\n+2\n", "assert x, \\\n  y\n", "from a import (b,\n c)\n", "from a import (b, c,)\n", "with a as b, \\\n     c as d:\n    pass\n", "if (a and\n    b):\n    pass\n", "if 1:\n\tx = 1\n", "x = 1\r\ny = 2\r\n", "x = 1\n\x0c\ny = 2\n",
     "if x:\n    y = 1\n    \n    z = 2\n", "if x:\n    y = 1\n  # odd comment\n    z = 2\n", "def f():\n    '''doc'''\n", "def f():\n    return\n", "def f(): return\n", "class C: pass\n", "class C(): pass\n", "class C(A, B, metaclass=M): pass\n",
     # trailing commas / annotation positions / parameters
     "f(a,)\n", "f(a, b,)\n", "f(*a,)\n", "f(**a,)\n", "f(a=1,)\n", "f(x for x in y)\n", "f((x for x in y),)\n", "def f(a,): pass\n", "def f(*a,): pass\n" , "def f(**a,): pass\n", "def f(a, /,): pass\n", "def f(*, a,): pass\n", "lambda a,: a\n", "lambda *a,: a\n",
     "(a,)\n", "[a,]\n", "{a,}\n", "{a: 1,}\n", "a,\n", "a, b,\n", "x = a,\n", "x = a, b,\n", "x[a,]\n", "x[a, b,]\n", "del a,\n", "del a, b,\n", "del (a, b)\n", "del [a, b]\n", "for x in a,: pass\n", "for x, in a: pass\n", "import a.b as c, d\n",
     "from . import a\n", "from .. import a\n", "from ... import a\n", "from .... import a\n", "from .a import b\n", "from ...a.b import c as d, e\n", "from . import (a, b,)\n", "from a import *\n", "from .import a\n", "from. import a\n", "from ...import a\n",
-    "x: int\n", "x: int = 1\n", "(x): int = 1\n", "x.y: int = 1\n", "x[0]: int\n", "x: 'T' = None\n", "x: int = yield\n" if False else "def g():\n    x: int = yield\n", "x: tuple = 1, 2\n", "x: tuple = *a, b\n", "x: list[int] = []\n",
+    "x: int\n", "x: int = 1\n", "(x): int = 1\n", "x.y: int = 1\n", "x[0]: int\n", "x: 'T' = None\n", "def g():\n    x: int = yield\n", "x: tuple = 1, 2\n", "x: tuple = *a, b\n", "x: list[int] = []\n",
     "def f(a: int, b: str = 's', *args: int, c: int, d: int = 1, **kw: int) -> int: pass\n", "def f(a, b=1, /, c=2, *, d=3, **k): pass\n", "def f(a: int = 1, /): pass\n", "def f(*, a: int = 1): pass\n", "def f(a, *args: int, **kw: int): pass\n",
-    "def f(self, *a: T, **k: T) -> None: ...\n", "def f(*a: *Ts): pass\n", "def f() -> (yield): pass\n" if False else "def f() -> None: pass\n", "lambda: (yield)\n", "lambda *a, b=1, **k: a\n", "lambda a, /, b: a\n", "lambda a=1, /, b=2: a\n",
+    "def f(self, *a: T, **k: T) -> None: ...\n", "def f(*a: *Ts): pass\n", "def f() -> None: pass\n", "lambda: (yield)\n", "lambda *a, b=1, **k: a\n", "lambda a, /, b: a\n", "lambda a=1, /, b=2: a\n",
     "async def f():\n    async with a as b, c: pass\n    async for x in y: pass\n    await z\n    return [x async for x in y]\n",
     "def f[T](a: T) -> T: pass\n", "def f[T: int, *Ts, **P](): pass\n", "class C[T]: pass\n", "class C[T: (int, str)](B): pass\n", "type A = int\n", "type A[T] = list[T]\n", "type = 1\n", "type.x = 1\n", "type(x)\n", "print(type)\n", "x = type\n", "type A[*Ts, **P] = int\n",
     "match x:\n    case 1: pass\n", "match = 1\n", "match.x\n", "match(x)\n", "match[x]\n", "match, case = 1, 2\n", "case = 1\n", "match x, y:\n    case a, b: pass\n", "match (x):\n    case (a): pass\n", "match x:\n    case [a, *b]: pass\n    case {'k': v, **r}: pass\n    case C(a, b=c): pass\n    case 1 | 2 as d: pass\n    case None: pass\n    case _: pass\n",
@@ -944,18 +944,18 @@ CORNERS = [
     "match x:\n    case a if a > 1: pass\n", "match x:\n    case [a, b, *_]: pass\n    case (1, 2) | [3, 4]: pass\n    case {1: _, 2: _}: pass\n    case str() | bytes(): pass\n", "match x:\n    case case: pass\n" , "match match:\n    case match: pass\n", "match -x:\n    case _: pass\n", "match *a, b:\n    case _: pass\n", "match [x]:\n    case _: pass\n", "match {x}:\n    case _: pass\n", "match x.y:\n    case _: pass\n",
     "try: pass\nexcept* E: pass\n", "try: pass\nexcept* (A, B) as e: pass\n", "try: pass\nexcept A: pass\nexcept (B, C) as e: pass\nexcept: pass\nelse: pass\nfinally: pass\n", "try: pass\nexcept A as e: pass\n",
     "with a: pass\n", "with a as b: pass\n", "with a, b: pass\n", "with a as b, c as d: pass\n", "with (a): pass\n", "with (a, b): pass\n", "with (a as b): pass\n", "with (a as b, c as d): pass\n", "with (a as b, c as d,): pass\n", "with (a, b) as c: pass\n", "with a as (b, c): pass\n", "with a as [b, c]: pass\n", "with a as b.c: pass\n", "with a as b[0]: pass\n", "with (\n    a as b,\n    c as d,\n):\n    pass\n",
-    "@a\ndef f(): pass\n", "@a.b\ndef f(): pass\n", "@a.b()\ndef f(): pass\n", "@a(1)(2)\ndef f(): pass\n", "@a[0]\ndef f(): pass\n", "@(a)\ndef f(): pass\n", "@a or b\ndef f(): pass\n", "@lambda f: f\ndef f(): pass\n", "@x.y.z\nclass C: pass\n", "@(yield)\ndef f(): pass\n" if False else "@a if b else c\ndef f(): pass\n",
+    "@a\ndef f(): pass\n", "@a.b\ndef f(): pass\n", "@a.b()\ndef f(): pass\n", "@a(1)(2)\ndef f(): pass\n", "@a[0]\ndef f(): pass\n", "@(a)\ndef f(): pass\n", "@a or b\ndef f(): pass\n", "@lambda f: f\ndef f(): pass\n", "@x.y.z\nclass C: pass\n", "@a if b else c\ndef f(): pass\n",
     # operators and precedence, every operator token
     "x = a + b - c * d / e // f % g @ h ** i\n", "x = a << b >> c & d | e ^ f\n", "x = ~a\n", "x = -a ** -b\n", "x = not a\n", "x = a if b else c if d else e\n", "x = a < b <= c == d != e > f >= g\n", "x = a is b is not c in d not in e\n", "x = a and b or c and not d\n",
-    "x += 1; x -= 1; x *= 1; x /= 1; x //= 1; x %= 1; x @= 1; x **= 1; x <<= 1; x >>= 1; x &= 1; x |= 1; x ^= 1\n", "x = (y := 1)\n", "x = a[1:2:3]\n", "x = a[::]\n", "x = a[:, ...]\n", "x = a.b.c\n", "x = a()()\n", "x = a->b\n" if False else "def f() -> a: pass\n",
-    "x = a!=b\n", "x = a<>b\n" if False else "x = a != b\n", "x = a if b else(c)\n", "x = (a)if(b)else(c)\n", "x=[a]if{b}else(c)\n", "x = a**-b\n", "x = a--b\n", "x = a+-+-b\n", "x = a*-b\n", "x = a@b@c\n", "x = a@-b\n" , "x = -a@b\n", "x @= a@b\n",
-    "x = ...\n", "x = ....real\n" if False else "x = (...).real\n", "x = a. b\n", "x = a .b\n", "x = a . b\n", "x = a.\\\nb\n", "print(a.real, 1.real)\n" if False else "print(a.real, 1.0.real)\n", "x = a if b else lambda: c\n", "x = lambda: (yield)\n", "x = [*a]\n", "x = *a,\n", "x = *a, b\n", "x = a, *b\n", "x = (*a,)\n",
-    "x = {**a}\n", "x = {**a, **b}\n", "x = {*a, *b}\n", "x = {a, *b}\n", "x = {a: b, **c}\n", "x = {a: b for a, b in c}\n", "x = {a for a in b}\n", "x = [a for a in b if c if d for e in f]\n", "x = (a for a in b)\n", "x = [a async for a in b]\n" if False else "x = [a for a in b]\n",
+    "x += 1; x -= 1; x *= 1; x /= 1; x //= 1; x %= 1; x @= 1; x **= 1; x <<= 1; x >>= 1; x &= 1; x |= 1; x ^= 1\n", "x = (y := 1)\n", "x = a[1:2:3]\n", "x = a[::]\n", "x = a[:, ...]\n", "x = a.b.c\n", "x = a()()\n", "def f() -> a: pass\n",
+    "x = a!=b\n", "x = a != b\n", "x = a if b else(c)\n", "x = (a)if(b)else(c)\n", "x=[a]if{b}else(c)\n", "x = a**-b\n", "x = a--b\n", "x = a+-+-b\n", "x = a*-b\n", "x = a@b@c\n", "x = a@-b\n" , "x = -a@b\n", "x @= a@b\n",
+    "x = ...\n", "x = (...).real\n", "x = a. b\n", "x = a .b\n", "x = a . b\n", "x = a.\\\nb\n", "print(a.real, 1.0.real)\n", "x = a if b else lambda: c\n", "x = lambda: (yield)\n", "x = [*a]\n", "x = *a,\n", "x = *a, b\n", "x = a, *b\n", "x = (*a,)\n",
+    "x = {**a}\n", "x = {**a, **b}\n", "x = {*a, *b}\n", "x = {a, *b}\n", "x = {a: b, **c}\n", "x = {a: b for a, b in c}\n", "x = {a for a in b}\n", "x = [a for a in b if c if d for e in f]\n", "x = (a for a in b)\n", "x = [a for a in b]\n",
     "() = ()\n", "[] = []\n", "() = x\n", "[] = x\n", "(a, b) = x\n", "[a, b] = x\n", "a, (b, c) = x\n", "a, [b, *c] = x\n", "*a, = x\n", "(*a,) = x\n", "[*a] = x\n", "a = b = c\n", "a, b = c, d = e\n", "a.b = c\n", "a[b] = c\n", "a[b:c] = d\n", "a.b.c[d].e = f\n", "(a) = 1\n", "(a.b) = 1\n", "((a)) = 1\n", "(a), b = 1, 2\n",
     "del ()\n", "del []\n", "del a\n", "del a.b\n", "del a[b]\n", "del a[b:c]\n", "del (a)\n", "del (a), b\n", "del [a, (b, c)]\n", "for () in x: pass\n", "for [] in x: pass\n", "[1 for () in x]\n", "with a as (): pass\n", "for a.b in x: pass\n", "for a[b] in x: pass\n", "for (a) in x: pass\n",
-    "global a\n", "global a, b\n", "def f():\n    nonlocal a\n", "assert a\n", "assert a, b\n", "assert (a, b)\n", "raise\n", "raise a\n", "raise a from b\n", "return\n" if False else "def f():\n    return a, b\n", "def f():\n    return *a, b\n", "def f():\n    yield\n    yield a\n    yield a, b\n    yield *a, b\n    x = yield\n    x = yield a\n    yield from a\n    x = yield from a\n",
-    "pass\n", "break\n" if False else "while 1: break\n", "while 1: continue\n", "import a\n", "import a.b.c\n", "import a as b\n", "import a, b\n", "x = None\n", "x = True\n", "x = False\n", "x = __debug__\n", "x = _\n", "_ = 1\n",
-    "print(a)\n", "print(a, file=b)\n", "print >>a, b\n", "exec('x')\n", "x = `a`\n" if False else "x = a\n", "ls\n", "ls -l\n", "ls - l\n", "echo > out\n" if False else "echo > out.x\n", "cd ..\n" if False else "cd / a\n", "a | b\n", "a and b\n", "a; b\n", "a & b\n", "x = a @ b\n", "a @ b\n",
+    "global a\n", "global a, b\n", "def f():\n    nonlocal a\n", "assert a\n", "assert a, b\n", "assert (a, b)\n", "raise\n", "raise a\n", "raise a from b\n", "def f():\n    return a, b\n", "def f():\n    return *a, b\n", "def f():\n    yield\n    yield a\n    yield a, b\n    yield *a, b\n    x = yield\n    x = yield a\n    yield from a\n    x = yield from a\n",
+    "pass\n", "while 1: break\n", "while 1: continue\n", "import a\n", "import a.b.c\n", "import a as b\n", "import a, b\n", "x = None\n", "x = True\n", "x = False\n", "x = __debug__\n", "x = _\n", "_ = 1\n",
+    "print(a)\n", "print(a, file=b)\n", "print >>a, b\n", "exec('x')\n", "x = a\n", "ls\n", "ls -l\n", "ls - l\n", "echo > out.x\n", "cd / a\n", "a | b\n", "a and b\n", "a; b\n", "a & b\n", "x = a @ b\n", "a @ b\n",
     # non-ASCII identifiers
     "ä = 1\n", "данные = 1\n", "名前 = 1\n", "µ = 1\n", "ﬁ = 1\n", "x = ａ\n", "x.é = 1\n", "def é(ñ): pass\n", "import é\n", "x = 'é'\n", "x = b'e'\n", "class Ü: pass\n", "e\u0301 = 1\n", "x = a\u00b7b\n", "℘ = 1\n", "x = 'a\u2028b'\n",
 ]
